@@ -449,7 +449,8 @@ RecvPublish(s, p) ==
   ELSE IF v5 /\ p.topic # "" /\ p.alias # 0 /\ ~(s.taRecv.max > 0 /\ p.alias <= s.taRecv.max)
     THEN HandleErr50(s, "TopicAliasInvalid")
   ELSE
-  LET pk == IF v5 /\ p.topic = "" THEN [p EXCEPT !.topic = TrGet(s.taRecv, p.alias)] ELSE p
+  \* the notified packet carries the extracted topic name (and reports its size with it)
+  LET pk == IF v5 /\ p.topic = "" THEN [p EXCEPT !.topic = TrGet(s.taRecv, p.alias), !.size = @ + StrLen(TrGet(s.taRecv, p.alias))] ELSE p
       s1 == IF v5 /\ p.topic # "" /\ p.alias # 0 THEN [s EXCEPT !.taRecv = TrInsert(@, p.topic, p.alias)] ELSE s
       s2 == IF v5 /\ q THEN [s1 EXCEPT !.pubRecv = @ \cup {p.pid}] ELSE s1
       already == p.qos = 2 /\ p.pid \in s.qos2
